@@ -121,6 +121,10 @@ class CfgOp(Op):
             else:
                 es = [mk_edge(w, e) for e in a[0]]
                 arg = iter(es) if style == "iter" else (OSet(es) if style == "set" else es)
+                if op.get("raise_after") is not None:
+                    from .ops_own import RaisingIter
+
+                    arg = RaisingIter(es, op["raise_after"])  # the iterable fails after k edges
             fn = lambda: C.update(arg)
         elif m in ("ior", "isub", "iand", "ixor"):
             es = w.objs[op["cfg_arg"]].cfg if op.get("cfg_arg") else OSet(mk_edge(w, e) for e in a[0])
@@ -187,6 +191,32 @@ class CfgOp(Op):
             return Exp("any")  # refused: nothing changed - inv_c11 decides
         if m in ("ior", "isub", "iand", "ixor") and op.get("style") == "iter" and not op.get("cfg_arg") and out.kind == "exc" and isinstance(out.exc, TypeError):
             return Exp("any")  # like the built-in: operators take sets only; nothing changed
+        if m == "update" and op.get("raise_after") is not None and not op.get("cfg_arg"):
+            from .core import SimFault
+
+            # a failed update: like set.update, any prefix of the edges the iterable produced may
+            # have been inserted - but nothing that was in the set before may be gone
+            w.counters["fault:iterable_fails_midway"] += 1
+            if out.kind != "exc" or not isinstance(out.exc, SimFault):
+                return Exp("exc", exc_cls=SimFault, owner=owner)
+            got = set()
+            for e in w.objs[op["ir"]].cfg:
+                v = edge_view(w, e)
+                got.add((v[0], v[1], tuple(v[2]) if v[2] is not None else None))
+            prefix = [norm_edge(e) for e in a[0][: op["raise_after"]]]
+            ok = False
+            cur = set(S)
+            for j in range(len(prefix) + 1):
+                if j:
+                    cur.add(prefix[j - 1])
+                if cur == got:
+                    ok = True
+                    break
+            if not ok:
+                w.violate(owner, "c11:after_failed_update", "%s.cfg after update() whose iterable failed behind %d edges: %r; before the call: %r" % (op["ir"], op["raise_after"], sorted(got, key=repr), sorted(S, key=repr)))
+            S.clear()
+            S.update(got)
+            return Exp("exc", exc_cls=SimFault, owner=owner)
         try:
             if m == "add":
                 S.add(norm_edge(a[0]))
